@@ -89,8 +89,9 @@ Print Assumptions C13_poison_refuted.
    create subscription) re-reads its promise after an insert that wrote nothing and asserts that the promise exists.
    The stateful monitor C05ya_mon judges an answer RspPanic to a registration request as a violation (c507_resp), and
    it is empty on every schedule: the promise was seen by the first read, promises are never deleted, so the re-read
-   finds it whatever was committed in between.  (The other three assertion sites of the model - create-with-task
-   results, the sweep's "every row read is overdue", "created rows = deleted rows" - stay evaluated: clause 1301.) *)
+   finds it whatever was committed in between.  (The sweep's "every row read is overdue" and the create-with-task
+   "the completion is a create-with-task result" are proved below; "promise rows created = task rows created" of a
+   create-with-task stays evaluated: clause 1301.) *)
 Theorem C13_registration_never_asserts : forall cfg sch, sch_wf sch -> C05ya_mon (events cfg sch) = [].
 Proof. exact C05ya_trace. Qed.
 Print Assumptions C13_registration_never_asserts.
@@ -106,3 +107,16 @@ Theorem C13_sweep_never_asserts : forall cfg sch pe t l c now' next,
     o_resp (resume_seq cfg KBgTimeoutP c now' next) <> Some RspPanic.
 Proof. exact sweep_never_asserts. Qed.
 Print Assumptions C13_sweep_never_asserts.
+
+(* a third assertion site, for EVERY schedule (Proofs/PT13.v): createPromiseAndTask asserts that the completion it is
+   handed is the result of a create-with-task command.  In every reachable state the submission awaited by a coroutine
+   of a create-with-task request (wt = true) is the CreatePromiseAndTask command its continuation names, and a
+   completion tells the truth about the command it answers: it is never the result of a plain create. *)
+Theorem C13_create_with_task_never_asserts : forall cfg sch i r tc0 wt pc tc n pe c,
+    sch_wf sch ->
+    let s := state_after cfg (sys0 db0) sch in
+    In i (s_insts s) -> i_st i = CSeq (KCreate_store r tc0 wt pc tc) n ->
+    In pe (s_pend s) -> pd_id pe = i_id i -> pd_n pe = n -> pd_ready pe = Some c ->
+    wt = true -> forall m rs, c <> CStore (RAlter m :: rs).
+Proof. exact create_with_task_never_asserts. Qed.
+Print Assumptions C13_create_with_task_never_asserts.
